@@ -65,6 +65,49 @@ func (w *World) computeInitOnly() {
 			}
 		}
 	}
+	// a field whose address escapes (passed to a call, stored, captured) can be written through that pointer
+	for fn := range ssautil.AllFunctions(w.Prog) {
+		for _, b := range fn.Blocks {
+			for _, ins := range b.Instrs {
+				fa, ok := ins.(*ssa.FieldAddr)
+				if !ok || fa.Referrers() == nil {
+					continue
+				}
+				base := deref(fa.X.Type())
+				_, isS := structOf(base)
+				if !isS {
+					continue
+				}
+				for _, ref := range *fa.Referrers() {
+					switch r := ref.(type) {
+					case *ssa.Store:
+						if r.Addr == ssa.Value(fa) && r.Val != ssa.Value(fa) {
+							continue
+						}
+					case *ssa.UnOp:
+						continue
+					case *ssa.FieldAddr, *ssa.IndexAddr, *ssa.DebugRef:
+						continue // nested accesses are examined on their own (a write below marks the outer field too)
+					}
+					// the field and every enclosing by-value field up the chain
+					cur := fa
+					for {
+						cb := deref(cur.X.Type())
+						cs, isCS := structOf(cb)
+						if !isCS {
+							break
+						}
+						w.mutableField[typeKey(cb)+"."+cs.Field(cur.Field).Name()] = true
+						next, nested := cur.X.(*ssa.FieldAddr)
+						if !nested {
+							break
+						}
+						cur = next
+					}
+				}
+			}
+		}
+	}
 	for fn := range ssautil.AllFunctions(w.Prog) {
 		for _, b := range fn.Blocks {
 			for idx, ins := range b.Instrs {
